@@ -102,7 +102,7 @@ Wrap(S, G, msfx) ==
            THEN [pr EXCEPT !.imports = MapS(ws, LAMBDA c : [mod |-> c \o msfx, only |-> <<c>>]) \o @]
            ELSE pr
       newMods == {[name |-> n.local \o msfx, file |-> FileOf(S.P, n), imports |-> <<>>, vars |-> <<>>, params |-> <<>>, src |-> "old"] : n \in W}
-      back == {pr \in Procs(S.P0) : ItemOfProc(pr) \in W} \ Procs(S.P)                   \* rediscovered from disk
+      back == {pr \in Procs(S.P0) : ItemOfProc(pr) \in W} \ {pr \in Procs(S.P) : ItemOfProc(pr) \notin W}                   \* rediscovered from disk
       seedOf(s) == IF \E n \in W : n = SeedItem(S.P, s) THEN [q |-> TRUE, scope |-> s.local \o msfx, local |-> s.local] ELSE s
   IN [S EXCEPT !.P = [mods |-> S.P.mods \o SetToSeq(newMods),
                       procs |-> MapS(MapS(S.P.procs, caller), wrapProc) \o SetToSeq(back)],
@@ -151,8 +151,8 @@ Dep(S, G, sfx, msfx) ==
       dropped(pr) == pr.mod \in KM /\ ~processed(pr)
       keptProcs == SelectSeq(S.P.procs, LAMBDA pr : ~dropped(pr))
       \* (units of these files that are still present as read from disk are simply found again)
-      backProcs == {pr \in Procs(S.P0) : pr.file \in refiles} \ Procs(S.P)
-      backMods == {m \in Mods(S.P0) : m.file \in refiles} \ Mods(S.P)
+      backProcs == {pr \in Procs(S.P0) : pr.file \in refiles} \ Range(MapS(keptProcs, procOf))
+      backMods == {m \in Mods(S.P0) : m.file \in refiles} \ Range(MapS(S.P.mods, modOf))
       newFull(it) == IF it.kind = "mod" THEN newMod(it.local)
                      ELSE newMod(it.scope) \o "#" \o (IF it \in K THEN it.local \o sfx ELSE it.local)
       renamed == {n \in PN : newFull(n) # Full(n)}
